@@ -112,7 +112,25 @@ ADDED = {
 }
 
 
+# round 8: the limiter, the Break and directory operands in Run.tla
+ADDED8 = {
+ "C14": (" + the same at the level of the whole run (MC_Run: BreakEndsReading against the functional stop position, over files and a directory operand in every listing order; Dev_Run_break.cfg must give the counterexample); real runs with a regular file below a directory operand before the endless pipe", ""),
+ "C16": (" + --skip/--take in the Run machine: runs with --take are followed exactly, read faults are injected under --take too (whether the failing read is met is the machine's answer), write errors of eight kinds, diagnostics at the edges of the input under write faults", ""),
+ "C17": (" + directory operands explained by a depth-first listing order (TLC searches Run!Lin of the operand tree; links to a file and to a directory; a second run under --take must print the first rows of some order) + input-context rows behind --skip/--take (MC_Run: IndicesLimited)", ""),
+ "C20": (" + a reader that takes the first line of a long output and leaves (EPIPE after a success)", ""),
+ "C18": (" + every style option on every foreign output style, alone and in pairs", ""),
+ "C11": (" + rows longer than 1 KiB / 8 KiB / 64 KiB between small rows in every output style", ""),
+ "C06": (" + byte order marks, whole or cut short, as the first bytes of the input under every policy", ""),
+ "C12": (" + an inner set without a value under an outer binding of the same name", ""),
+}
+
+
 def main():
+    for pid, (tech, text) in ADDED8.items():
+        if pid in ADDED:
+            ADDED[pid] = (ADDED[pid][0] + tech, ADDED[pid][1] + text)
+        else:
+            ADDED[pid] = (tech, text)
     for pid, (tech, text) in ADDED.items():
         CHECKS[pid]["technique"] += tech
         CHECKS[pid]["text"] += text
